@@ -223,6 +223,11 @@ def task_purity():
             if isinstance(n, pyast.Subscript) and isinstance(n.value, pyast.Name) and n.value.id == par:
                 bad.append(n.lineno)
         obs.append(_ob('C11/order/%s/%s-is-used-for-membership-only' % (spec.split(':')[1], par), not bad, 'ordered uses at lines %r' % bad))
-    return result(obs, [source.describe(s) for s in ('python_minifier:minify', 'python_minifier.rename.renamer:reserve_name', 'python_minifier.rename.renamer:reservation_scope',
-                                                      'python_minifier.rename.renamer:sorted_bindings', 'python_minifier.ast_compare:compare_ast')], ASSUMPTIONS,
+    described = []
+    for spec in sorted(set(fns)):
+        try:
+            described.append(source.describe(spec))
+        except Exception:
+            pass        # nested helpers that cannot be addressed by qualified name are still analysed (counted in the notes)
+    return result(obs, described, ASSUMPTIONS,
                   samples=samples, notes=['%d functions analysed' % len(fns)])
